@@ -31,4 +31,15 @@ theorem prepared_as_modelled :
   refine ⟨?_, ?_⟩ <;> rfl
 
 
+/-- today's NewPreparedMessage is the modelled one -/
+theorem new_prepared_as_modelled :
+    Gen.stmts_NewPreparedMessage =
+      ["pm := &PreparedMessage{ messageType: messageType, frames: make(map[prepareKey]*preparedFrame), data: data, }",
+        "_, frameData, err := pm.frame(prepareKey{isServer: true, compress: false})",
+        "if err != nil { return nil, err }",
+        "pm.data = frameData[len(frameData)-len(data):]",
+        "return pm, nil"] := by
+  rfl
+
+
 end WS.Props.C19Tie
